@@ -109,3 +109,17 @@ def inline_pure_helpers(expr, helpers, depth=3):
                         return inline_pure_helpers(e, helpers, depth - 1)
             return node
     return ast.fix_missing_locations(T().visit(copy.deepcopy(expr)))
+
+
+def emptiness_holding(expr, pol, name):
+    """The atomic test `expr`, taken on side `pol`, establishes that the sequence `name` is empty:
+    len(name) == 0 (true side), len(name) != 0 / > 0 / >= 1 (false side), `name` itself (false side: `not name`)."""
+    from .astutil import comparison_holding
+    if isinstance(expr, ast.Name) and expr.id == name:
+        return not pol
+    for op, a, b in comparison_holding(expr, pol):
+        if isinstance(a, ast.Call) and isinstance(a.func, ast.Name) and a.func.id == 'len' and len(a.args) == 1 and is_name(a.args[0], name) and \
+                isinstance(b, ast.Constant) and isinstance(b.value, int):
+            if (op is ast.Eq and b.value == 0) or (op is ast.LtE and b.value == 0) or (op is ast.Lt and b.value == 1):
+                return True
+    return False
